@@ -83,15 +83,17 @@ def c10_run(ctx):
 
 
 CHECK = {
-    "lean_modules": ["P3R.Props.C10", "P3R.Props.C10Full"],
+    "lean_modules": ["P3R.Props.C10", "P3R.Props.C10Full", "P3R.Props.C11Sched"],
     "theorems": ["P3R.C10.record_row_add", "P3R.C10.record_row_mul", "P3R.C10.record_row_muladd", "P3R.C10.record_row_bool",
                  "P3R.C10.honest_bus_balanced",
                  # model-level completeness: the honest trace meets both acceptance conditions of C04.accepted_sat
                  "P3R.C10.holds_rowOk", "P3R.C10.honest_rows", "P3R.C10.honest_tupleNet", "P3R.C10.honest_bus",
-                 "P3R.C10.honest_accepted", "P3R.C10.run_honest_accepted"],
+                 "P3R.C10.honest_accepted", "P3R.C10.run_honest_accepted",
+                 # the scheduled / packed layout keeps every index's net multiplicity (proved over the schedule model of C11)
+                 "P3R.C11.schedule_preserves_bus"],
     "run": c10_run,
     "trusted_base": ["STARK completeness: a trace satisfying all row constraints with a balanced bus is provable (also exercised for real by every run)"],
-    "assumptions": ["BabyBear D=1 circuits of primitive ops and hints; scheduled/packed ALU layout is tied by C11's scheduled-trace oracle, not by a Lean schedule model"],
+    "assumptions": ["BabyBear D=1 circuits of primitive ops and hints; the scheduled/packed ALU layout: bus preservation is proved over the Lean schedule model (C11.schedule_preserves_bus, model tied to the real AluAir by C11's run), the main-trace layout (intermediate accumulators) is tied by C11's scheduled-trace oracle"],
 }
 
 MANIFEST_ENTRY = {
